@@ -82,10 +82,32 @@ Proof.
   destruct parked; exact G.
 Qed.
 
+Lemma acc_ret_log s c x e : rellog (acc_ret s c x e) = rellog s.
+Proof.
+  unfold acc_ret. pose proof (release_call_by_log (setc s c (with_cpc x (CRel e))) (cref x) (Some c)) as G.
+  destruct (release_call_by (setc s c (with_cpc x (CRel e))) (cref x) (Some c)) as [s1 parked]. cbn [fst] in G.
+  destruct parked; exact G.
+Qed.
+
+Lemma acc_s1_log s c x : rellog (acc_s1 s c x) = rellog s.
+Proof.
+  unfold acc_s1. destruct (negb (Nat.eqb (ac_err x) 0)); [apply acc_ret_log|].
+  destruct (ac_res x); [reflexivity|]. destruct (ccanc x); [apply acc_ret_log | reflexivity].
+Qed.
+
+Lemma cb_return_log fx s c res : rellog (cb_return fx s c res) = rellog s.
+Proof.
+  unfold cb_return. destruct (nth_error (conss s) c) as [x|]; [|reflexivity].
+  destruct (ck x); try reflexivity. destruct (cpcv x); try reflexivity.
+  destruct (ccanc x); [apply acc_ret_log|].
+  match goal with |- _ (if ?b then _ else _) = _ => destruct b end; [apply acc_ret_log | reflexivity].
+Qed.
+
 Lemma cons_step_log s c : rellog (cons_step s c) = rellog s.
 Proof.
   unfold cons_step. destruct (nth_error (conss s) c) as [x|]; [|reflexivity].
-  destruct (ck x), (cpcv x); try reflexivity.
+  destruct (ck x), (cpcv x); try reflexivity; try apply acc_s1_log.
+  3:{ destruct (negb (Nat.eqb (ac_nonce x) (ac_snap x))); [apply acc_s1_log|]. destruct (ccanc x); [apply acc_ret_log | reflexivity]. }
   - destruct (cw_res x) as [[v e]|]; [destruct (Nat.eqb e 0); [reflexivity | apply cons_fail_log] | destruct (ccanc x); [apply cons_fail_log | reflexivity]].
   - destruct (ww_prom x) as [[v e]|]; [destruct (Nat.eqb e 0); [reflexivity | apply cons_fail_log] | destruct (ccanc x); [apply cons_fail_log | reflexivity]].
 Qed.
@@ -108,7 +130,7 @@ Proof.
   - (* SetContext *) unfold set_context. destruct (Nat.eqb_spec (kctx s) c) as [Ek|Ek]; [now left|]. cbn [fst].
     destruct (start_resolve_relstored (set_kctx s c)) as [[_ Hs]|[c0 [H1 [H2 H3]]]]; [now left|]. right. exists c0. split; [exact H3|]. left. auto.
   - left. now apply add_ref_log.
-  - left. apply release_call_by_log.
+  - left. destruct (rkind (nth r (refs s) ref0)); try reflexivity; apply release_call_by_log.
   - (* removeRef section of an explicit Release *)
     unfold release_section. destruct (nth_error (relacts s) a) as [x|]; [|now left]. destruct (ra_pc x); [|now left].
     set (sa := set_relacts s _). set (s1 := remove_ref sa (ra_ref x)).
@@ -144,6 +166,7 @@ Proof.
     set (sa := setc s c _).
     destruct (remove_ref_log sa (cref x)) as [Hl|[c0 [H1 [H2 [H3 [H4 [H5 H6]]]]]]]; [now left|].
     right. exists c0. split; [exact H3|]. left. split; [exact H1|]. split; [exact H2|]. split; [exact H4|]. split; [exact H5 | exact H6].
+  - left. apply cb_return_log.
 Qed.
 
 (* ------------------------------------------------------------------ *)
